@@ -109,6 +109,7 @@ theorem getInt_value (e : Env) (p : Prog) (i : Int) :
     callable can have been invoked while building any program (stated as independence).
 (2) Reading evaluates only the element's own dependency chain, each callable once. -/
 
+/-- (not a property theorem: `rfl` — the content is the TYPE of `Prog.lazy`, which takes no `Env`) -/
 theorem construction_evaluates_nothing (p : Prog) (e₁ e₂ : Env) :
     (fun (_ : Env) => p.lazy) e₁ = (fun (_ : Env) => p.lazy) e₂ := rfl
 
